@@ -169,7 +169,15 @@ idl_a_demux_feed		(vbi_idl_demux *	dx,
 		}
 	}
 
-	histbyte = ci;
+	/* 6.5.7.1: A run of 0x00 or 0xFF bytes can begin with the CI byte
+	   only if that byte was transmitted, and right before the user
+	   data. An implicit CI is not on the wire, and a DL byte (never
+	   0x00 or 0xFF when user data follows) separates CI and data. */
+	if (FT_HAVE_CI == (ft & (FT_HAVE_CI | FT_HAVE_DL)))
+		histbyte = ci;
+	else
+		histbyte = 0xAA; /* neither 0x00 nor 0xFF */
+
 	dupecount = 0;
 
 	dx->ci = ci + 1;
